@@ -352,6 +352,11 @@ type c14Sys struct {
 	calls   int
 	// storeFails makes the write of the file cache (full syncs) fail.
 	storeFails bool
+	// lastSyncPoint is the synchronisation point the backend gave in its most
+	// recent response; lateStore describes a file cache handed to the store
+	// with a LATER synchronisation time.
+	lastSyncPoint time.Time
+	lateStore     string
 }
 
 type c14Storage struct{ sys *c14Sys }
@@ -370,7 +375,10 @@ func (s *c14Storage) Profiles(_ context.Context, req *StorageProfilesRequest) (*
 		since = int(req.SyncTime.Unix())
 	}
 
-	return s.sys.be.response(since), nil
+	resp := s.sys.be.response(since)
+	s.sys.lastSyncPoint = resp.SyncTime
+
+	return resp, nil
 }
 
 // c14Cache is the file-cache seam of the database: it stores nothing and
@@ -378,7 +386,13 @@ func (s *c14Storage) Profiles(_ context.Context, req *StorageProfilesRequest) (*
 type c14Cache struct{ sys *c14Sys }
 
 func (c *c14Cache) Load(context.Context) (*internal.FileCache, error) { return nil, nil }
-func (c *c14Cache) Store(context.Context, *internal.FileCache) error {
+func (c *c14Cache) Store(_ context.Context, fc *internal.FileCache) error {
+	// A database restarted from this cache asks the backend for the changes
+	// since fc.SyncTime: a time later than the backend's own synchronisation
+	// point loses every change made in between.
+	if fc != nil && fc.SyncTime.After(c.sys.lastSyncPoint) {
+		c.sys.lateStore = fmt.Sprintf("file cache stored with sync time %s, the backend's synchronisation point of the data is %s", fc.SyncTime.UTC(), c.sys.lastSyncPoint.UTC())
+	}
 	if c.sys.storeFails {
 		return errors.New("write profilecache.pb: no space left on device")
 	}
@@ -580,6 +594,9 @@ func (sys *c14Sys) observe() (fs []vrt.Finding, obs string) {
 	sys.discard = true
 	defer func() { sys.discard = false }()
 	var sb strings.Builder
+	if sys.lateStore != "" {
+		fs = append(fs, vrt.F("profiledb/file-cache-sync-time-after-backend-sync-point", "%s: after a restart from this cache the incremental syncs never ask for the changes made in between", sys.lateStore)...)
+	}
 	for _, l := range c14Lookups {
 		p, d, err := sys.lookup(l)
 		wantP, wantD := sys.expect(l)
